@@ -793,6 +793,7 @@ func hIsMember(c *core.Ctx, R, name string) {
 
 func init() {
 	reg("R46", func(c *core.Ctx) { hNoAppendOntoSizedSlice(c, "R46") })
+	reg("R11", func(c *core.Ctx) { hNoAppendOntoSizedSlice(c, "R11") })
 }
 
 // hNoAppendOntoSizedSlice: a slice made with a non-zero length already has that many (zero) elements; appending to
